@@ -4,11 +4,11 @@ from vf.ch import Ob
 CTX = ["stmt_start", "after_create", "table_name", "col_first", "col_later", "col_after_sized", "type_pos", "option_pos",
        "option_pos2", "after_not", "after_default", "pk_list_first", "pk_list_later", "uniq_list_first", "fk_list_first",
        "ref_list_first", "after_constraint", "after_columns", "after_clause", "seq_options", "seq_options2", "alter_body",
-       "alter_add", "index_name", "index_cols", "type_name", "schema_name", "after_dot", "seq_after_cache", "type_after_dot", "ref_list_later", "default_paren"]
+       "alter_add", "index_name", "index_cols", "type_name", "schema_name", "after_dot", "seq_after_cache", "type_after_dot", "ref_list_later", "default_paren", "alter_drop", "alter_rename", "alter_modify"]
 NAME_CTX = ["col_first", "col_later", "col_after_sized", "pk_list_first", "pk_list_later", "uniq_list_first", "fk_list_first",
             "ref_list_first", "index_cols", "after_dot", "type_after_dot", "ref_list_later"]
 KW_CTX = ["stmt_start", "after_create", "col_later", "col_after_sized", "type_pos", "option_pos", "option_pos2", "after_not",
-          "after_default", "after_columns", "after_clause", "seq_options", "seq_options2", "alter_body", "alter_add", "seq_after_cache"]
+          "after_default", "after_columns", "after_clause", "seq_options", "seq_options2", "alter_body", "alter_add", "seq_after_cache", "alter_drop", "alter_rename", "alter_modify"]
 FN = ["simple_ddl_parser/ddl_parser.py:DDLParser.t_ID, t_COLLATE, t_AUTOINCREMENT, is_token_column_name, is_creation_name, "
       "tokens_not_columns_names, process_body_tokens, after_columns_tokens, parse_tags_symbols, set_lexer_tags, capitalize_tokens, "
       "commat_type, set_lexx_tags, set_parenthesis_tokens, set_last_token", "simple_ddl_parser/tokens.py keyword tables",
